@@ -1195,14 +1195,14 @@ def run(out, ctx):
     rng = random.Random(seed * 104729 + 2)
     nc = dict(single=46, batch=15, multitask=8, shared=4, samename=8, sharedprior=3, sum=8, grad=6,
               container=14, sgpr=8, mtlik=12, ctor=6, ctor_batch=4) if tier == "quick" else \
-        dict(single=500, batch=200, multitask=100, shared=30, samename=60, sharedprior=20, sum=80, grad=40,
-             container=150, sgpr=80, mtlik=120, ctor=60, ctor_batch=40)
+        dict(single=200, batch=80, multitask=40, shared=15, samename=30, sharedprior=10, sum=40, grad=16,
+             container=60, sgpr=32, mtlik=60, ctor=30, ctor_batch=16)   # ~4-5x the quick tier (sized to 15-20 min on an idle machine)
     nc = {k: max(1, int(v * ctx.get("scale", 1.0))) for k, v in nc.items()}   # scale < 1 only in builder sensitivity runs
     cases = [gen_case(rng, tier, fam, regime=BATCH_REGIMES[j % len(BATCH_REGIMES)] if fam == "batch" else None)
              for fam in ("single", "batch", "multitask", "shared", "samename", "sharedprior") for j in range(nc[fam])]
     # objectives of deep copies with changed hyper-parameters (own stream)
     crng = random.Random(seed * 7919 + 203)
-    for _ in range(max(1, int((12 if tier == "quick" else 120) * ctx.get("scale", 1.0)))):
+    for _ in range(max(1, int((12 if tier == "quick" else 48) * ctx.get("scale", 1.0)))):
         c = gen_case(crng, tier, "single")
         c["n"] = min(c["n"], 4); c["X"] = c["X"][:c["n"]]; c["y"] = c["y"][:c["n"]]; c["dyadic"] = c["n"] >= 4
         if not c["priors"]:
